@@ -81,7 +81,10 @@ fn parse_member(e: &str) -> Member {
 ///                to 16 entries, else `#<count>.<fnv1a-64 of the full text>`
 /// Not shown (the model state does not record whether these keys exist, see `Model/Cw4Raw.lean`): a `cw4-hooks`
 /// item holding `[]`, a STAKE entry holding `"0"`, a CLAIMS entry holding `[]`.
-pub fn render_raw_keys(data: &BTreeMap<Vec<u8>, Vec<u8>>, member_keys: &[Vec<u8>], primary_keys: &[Vec<u8>]) -> String {
+/// Keys that belong to none of the storage items the model knows (a rewrite of the contract may add bookkeeping of
+/// its own) go to the separate field `rawextra` (`<hex key>,…`, normally empty), which is in no property's slice: an
+/// additional key does not change what a raw read of the published keys returns.
+pub fn render_raw_keys(data: &BTreeMap<Vec<u8>, Vec<u8>>, member_keys: &[Vec<u8>], primary_keys: &[Vec<u8>]) -> (String, String) {
     use cosmwasm_std::storage_keys::to_length_prefixed;
     // lower-case hex (as `common::hex`, without a `format!` per byte: this runs over the whole storage after every op)
     fn hex(b: &[u8]) -> String {
@@ -100,6 +103,7 @@ pub fn render_raw_keys(data: &BTreeMap<Vec<u8>, Vec<u8>>, member_keys: &[Vec<u8>
     let claims = to_length_prefixed(b"claims");
     let mut prim: Vec<String> = vec![];
     let mut logs: Vec<String> = vec![];
+    let mut extra: Vec<String> = vec![];
     // a BTreeMap iterates in ascending byte order of the keys
     for (k, v) in data {
         if (k.as_slice() == b"cw4-hooks" && v.as_slice() == b"[]")
@@ -112,21 +116,24 @@ pub fn render_raw_keys(data: &BTreeMap<Vec<u8>, Vec<u8>>, member_keys: &[Vec<u8>
             logs.push(format!("{}:{}", hex(k), hex(v)));
         } else if k.as_slice() == cw4::TOTAL_KEY.as_bytes() || k.starts_with(&members) || k.starts_with(&stake) {
             prim.push(format!("{}:{}", hex(k), hex(v)));
-        } else {
+        } else if [&b"contract_info"[..], b"admin", b"cw4-hooks", b"config"].contains(&k.as_slice()) || k.starts_with(&claims) {
             prim.push(format!("{}:*", hex(k)));
+        } else {
+            extra.push(hex(k));
         }
     }
     let logs_text = logs.join(",");
     let c = if logs.len() <= 16 { logs_text } else { format!("#{}.{:016x}", logs.len(), hash_str(&logs_text)) };
     let hexes = |ks: &[Vec<u8>]| ks.iter().map(|k| hex(k)).collect::<Vec<_>>().join("+");
-    format!(
+    let keys = format!(
         "T.{}/M.{}/P.{}/D.{}/C.{}",
         hex(cw4::TOTAL_KEY.as_bytes()),
         hexes(member_keys),
         hexes(primary_keys),
         prim.join(","),
         c
-    )
+    );
+    (keys, extra.join(","))
 }
 
 impl GroupScen {
@@ -272,9 +279,9 @@ impl GroupScen {
         let probes: Vec<&Addr> = self.pool.iter().take(2).collect();
         let member_keys: Vec<Vec<u8>> = probes.iter().map(|a| cw4::member_key(a.as_str())).collect();
         let primary_keys: Vec<Vec<u8>> = probes.iter().map(|a| MEMBERS.key(*a).to_vec()).collect();
-        let rawkeys = render_raw_keys(&self.deps.storage.data, &member_keys, &primary_keys);
+        let (rawkeys, rawextra) = render_raw_keys(&self.deps.storage.data, &member_keys, &primary_keys);
         format!(
-            "obs pagediff={} admin={} hooks={} members={} total={} mh={} th={} rawtotal={} rawmem={} hs={} mlog={} tlog={} rawkeys={}",
+            "obs pagediff={} admin={} hooks={} members={} total={} mh={} th={} rawtotal={} rawmem={} hs={} mlog={} tlog={} rawkeys={} rawextra={}",
             pagediff,
             opt_str(&self.admin()),
             self.hooks().join(","),
@@ -287,7 +294,8 @@ impl GroupScen {
             hs.join(","),
             mlog.join(","),
             tlog.join(","),
-            rawkeys
+            rawkeys,
+            rawextra
         )
     }
 
